@@ -334,6 +334,17 @@ namespace
                         }
                         if (st[t] != LINKED || t == i) { done = false; break; }
                         if (k == C_ADD_AFTER) { dlist_add_next(n, &it[t]->lnk); ins_rel(i, t, true); }
+                        else if (k == C_ADD_BEFORE && (i + t) % 3 != 0)
+                        {
+                            // the insertion is made from inside a _safe walk over t's list, when the cursor stands on t
+                            int L = where[t];
+                            std::vector<int> seen((size_t)ni + 4);
+                            int ns = (i + t) % 3 == 1 ? cxx_safe_walk_edit(heads[L].get(), t, 0, n, seen.data(), ni + 2) : c01_c_safe_walk_edit(heads[L].get(), t, 0, n, seen.data(), ni + 2);
+                            seen.resize((size_t)std::max(ns, 0));
+                            if (ns < 0 || seen != m[L]) violate("C01/loop-macro-statement", "a dlist_for_each_safe walk whose body links a new entry in front of the cursor visited %s, the list held %s when it started", seq(seen).c_str(), seq(m[L]).c_str());
+                            ins_rel(i, t, false);
+                            probe("safe_walk_inserted_in_front_of_the_cursor");
+                        }
                         else if (k == C_ADD_BEFORE) { dlist_add_prev(n, &it[t]->lnk); ins_rel(i, t, false); }
                         else
                         {
@@ -355,6 +366,20 @@ namespace
                 case C_DEL_INIT:
                     if (st[i] == POISONED || st[i] == STALE) { done = false; break; }
                     if (st[i] == UNLINKED) probe("second_removal");
+                    if (st[i] == LINKED && mod(arg(o, 3), 4) == 3 && m[where[i]].back() != i)
+                    {
+                        // i is removed from inside a _safe walk over its list, when the cursor stands on i's successor
+                        int L = where[i];
+                        int succ = *(std::find(m[L].begin(), m[L].end(), i) + 1);
+                        std::vector<int> seen((size_t)ni + 4);
+                        int ns = (i & 1) ? cxx_safe_walk_edit(heads[L].get(), succ, 1, nullptr, seen.data(), ni + 2) : c01_c_safe_walk_edit(heads[L].get(), succ, 1, nullptr, seen.data(), ni + 2);
+                        seen.resize((size_t)std::max(ns, 0));
+                        if (ns < 0 || seen != m[L]) violate("C01/loop-macro-statement", "a dlist_for_each_safe walk whose body removes the entry visited just before the cursor visited %s, the list held %s when it started", seq(seen).c_str(), seq(m[L]).c_str());
+                        unlink_model(i);
+                        st[i] = UNLINKED;
+                        probe("safe_walk_removed_the_previous_entry");
+                        break;
+                    }
                     if (st[i] == LINKED && mod(arg(o, 3), 3) != 0)
                     {
                         // the remove-first idiom: a _safe walk over the entry's list that unlinks the first entry of i's parity and
